@@ -627,8 +627,21 @@ func (n *BlockNode) Render(w io.Writer, ctx *RenderContext) error {
 	previousChain, previousDepth := ctx.currentChain, ctx.blockDepth
 	ctx.currentBlock = n
 	ctx.currentChain, ctx.blockDepth = chain, 0
+
+	// Each definition resolves relative names against the template it was written in
+	origins := make([]*Template, 0, len(chain))
+	origins = append(origins, ctx.blockOrigins[n.name]...)
+	for len(origins) < len(chain) {
+		origins = append(origins, ctx.lastLoadedTemplate)
+	}
+	previousOrigins, previousTemplate := ctx.currentOrigins, ctx.lastLoadedTemplate
+	ctx.currentOrigins = origins
+	if origins[0] != nil {
+		ctx.lastLoadedTemplate = origins[0]
+	}
 	defer func() {
 		ctx.currentChain, ctx.blockDepth = previousChain, previousDepth
+		ctx.currentOrigins, ctx.lastLoadedTemplate = previousOrigins, previousTemplate
 	}()
 
 	// Create an isolated context for rendering this block
@@ -758,6 +771,7 @@ func (n *ExtendsNode) Render(w io.Writer, ctx *RenderContext) error {
 		parentCtx.blocks[name] = nodes
 	}
 	parentCtx.blockChain = copyBlockChain(ctx.blockChain)
+	parentCtx.blockOrigins = copyBlockOrigins(ctx.blockOrigins)
 
 	// Render the parent template with the updated context
 	return parentTemplate.nodes.Render(w, parentCtx)
@@ -1148,6 +1162,10 @@ func (n *MacroNode) CallMacro(w io.Writer, ctx *RenderContext, args ...interface
 	macroCtx := NewRenderContext(ctx.env, nil, ctx.engine)
 	macroCtx.sandboxed = ctx.sandboxed // macros called from a sandbox run sandboxed
 	macroCtx.lastLoadedTemplate = ctx.lastLoadedTemplate
+	if origin := ctx.macroOrigin(n); origin != nil {
+		// Relative names in the body of an imported macro resolve against its defining template
+		macroCtx.lastLoadedTemplate = origin
+	}
 
 	// An imported macro sees the macros of the template that defines it
 	for name, sibling := range ctx.macroScope(n) {
@@ -1285,7 +1303,7 @@ func (n *ImportNode) Render(w io.Writer, ctx *RenderContext) error {
 	for name, macro := range importCtx.macros {
 		macros[name] = macro
 	}
-	ctx.rememberMacroScope(importCtx.macros)
+	ctx.rememberMacroScope(importCtx.macros, template)
 
 	// Set the module variable in the current context
 	ctx.SetVariable(n.module, macros)
@@ -1375,7 +1393,7 @@ func (n *FromImportNode) Render(w io.Writer, ctx *RenderContext) error {
 		return err
 	}
 
-	ctx.rememberMacroScope(importCtx.macros)
+	ctx.rememberMacroScope(importCtx.macros, template)
 
 	// Copy selected macros from import context to the current context
 	for _, macroName := range n.macros {
@@ -1547,6 +1565,10 @@ func (n *RootNode) Render(w io.Writer, ctx *RenderContext) error {
 					ctx.blockChain = make(map[string][][]Node)
 				}
 				ctx.blockChain[block.name] = append(ctx.blockChain[block.name], block.body)
+				if ctx.blockOrigins == nil {
+					ctx.blockOrigins = make(map[string][]*Template)
+				}
+				ctx.blockOrigins[block.name] = append(ctx.blockOrigins[block.name], ctx.lastLoadedTemplate)
 			}
 		}
 	}
